@@ -446,6 +446,16 @@ class FakeNode(object):
                                  'stream': s, 'rid': rid, 'attempt': attempt, 'kind': kindb})
             sim.rec('node.reply', 'n%d %s s=%d rid=%s %s' % (self.idx, nc.label, s, rid, kindb))
             nc.send(s, op, body, flags=flags, delay=0.0)
+            th = beh.get('then')
+            if th:
+                # a fault bound to this reply: "the node answers, then dies / loses its connections"
+                def after(th=th):
+                    if th['kind'] == 'crash':
+                        cl.crash(self.idx, how='rst', announce=th.get('announce'))
+                    elif th['kind'] == 'rst_pool':
+                        cl.rst_conns(self.idx, 'pool')
+                cl.then_faults.append((sim.nlog, self.idx, rid, th['kind']))
+                sim.at(th.get('after', 0.001), after, 'then-%s n%d' % (th['kind'], self.idx))
         sim.at(delay, reply, 'reply n%d rid=%s' % (self.idx, rid))
 
     # ---- events
@@ -500,6 +510,7 @@ class FakeCluster(object):
         self.user_lat = spec.get('user_lat', (0.0005, 0.01))
         self.sys_drops = []          # [(node idx or None, table prefix)] active drops
         self.ddl_hooks = []
+        self.then_faults = []        # (seq, node idx, rid, kind): faults bound to a reply (script entry 'then')
         for i, ns in enumerate(spec['nodes']):
             n = FakeNode(self, i, dc=ns.get('dc', 'dc1'), rack=ns.get('rack', 'r1'), tokens=ns.get('tokens'),
                          release=ns.get('release', '3.11.4'), versions=tuple(ns.get('versions', (3, 4))),
